@@ -24,9 +24,9 @@ LEVEL = 'model_checking'
 TECHNIQUE = ('bounded exhaustive enumeration of (quantified pattern sequence, element sequence, container) on the real matcher with '
              "Python's re as reference model on every case; exhaustive self-match / leaf-mutation / layout / call-order "
              'enumeration over the program set')
-LEVEL_TEXT = ('all pattern sequences up to length 3 over a 36-element quantifier alphabet (incl. static tags and single-node captures inside quantifiers) x all element sequences up to length 5 '
+LEVEL_TEXT = ('all pattern sequences up to length 3 over a 39-element quantifier alphabet (incl. static tags and single-node captures inside quantifiers) x all element sequences up to length 5 '
               'over {a,b,c} in three container kinds are matched by the real code and compared (accept/reject and captured '
-              'spans) with re.fullmatch; every node of 45 programs x derived patterns for the structural laws')
+              'spans) with re.fullmatch; every node of 58 programs x derived patterns for the structural laws')
 LEVEL_NOTE = ('trusted: Python re as the definition of quantifier semantics (sub-sequence quantifiers with inner quantifiers are '
               'atomic groups as documented); CPython ast for pure-AST targets')
 RULE = ('enum: case = (container, pattern sequence, element string) or (program, node, derived pattern); non-trivial = distinct '
